@@ -11,7 +11,7 @@ from tartiflette import Resolver, Scalar
 from crosshair.tracers import NoTracing
 
 META = {
-    "bounds": "15 declared variable types (scalars incl. custom, enum, recursive input object with defaults, list/non-null nestings to depth 3) x up to 4 "
+    "bounds": "19 declared variable types (4 of them with schema directives on every input-side element; scalars incl. custom, enum, recursive input object with defaults, list/non-null nestings to depth 3) x up to 4 "
               "variable defaults each x JSON values assembled from tags {absent,null,bool,int,str,list<=2,object} with symbolic leaves; a second required variable; an undeclared extra variable",
     "outside": "lists longer than 2; JSON floats other than the 12-entry catalogue (all binary64: C10/E2); ints beyond 2^1000 at Float positions; ID rendering of symbolic ints (CPython str(int))",
     "explanation": "Oracle: vf/ref/coerce.py CoerceVariableValues written from the spec; compared on refusal (data null, nothing ran, offending variable named) and on the value the resolver observed (absent != null).",
@@ -24,8 +24,13 @@ TYPES = [
     ("s", "String", [None, "\"d\""]), ("b", "Boolean!", [None, "true"]), ("f", "Float", [None, "1.5", "2"]), ("id", "ID", [None, "\"x\"", "5"]),
     ("c", "Color", [None, "GREEN"]), ("lc", "[Color!]", [None, "[RED]", "GREEN"]), ("ms", "My", [None, "7"]),
     ("o", "Inp", [None, "{x: 1}", "{x: 1, inner: {x: 2, c: GREEN}}"]), ("lo", "[Inp!]", [None, "[{x: 1}]", "{x: 3}"]),
+    # the same shapes of types, every input-side element carrying a schema directive (one without any hook, one with a pass-through hook)
+    ("ca", "ColorA", [None]), ("lca", "[ColorA!]", [None]), ("oa", "InpA", [None]), ("msa", "MyA", [None]),
 ]
-SDL = "scalar My\nenum Color { RED GREEN }\ninput Inp { x: Int! y: [Int] = [1] c: Color = RED inner: Inp }\ntype Query {\n" + \
+SDL = "scalar My\nenum Color { RED GREEN }\ninput Inp { x: Int! y: [Int] = [1] c: Color = RED inner: Inp }\n" \
+      "directive @audited on INPUT_FIELD_DEFINITION | ENUM | ENUM_VALUE | INPUT_OBJECT | SCALAR\ndirective @seen on INPUT_FIELD_DEFINITION | ENUM | INPUT_OBJECT | SCALAR\n" \
+      "scalar MyA @audited @seen\nenum ColorA @seen @audited { RED @audited GREEN }\n" \
+      "input InpA @audited { x: Int! @audited @seen y: [Int] = [1] @seen c: ColorA = RED @audited inner: InpA @seen }\ntype Query {\n" + \
       "\n".join("  p_%s(x: %s, w: Int): String" % (n, t) for n, t, _ in TYPES) + "\n}\n"
 LOG = []
 
@@ -42,6 +47,21 @@ class My:
 
 
 Scalar("My", schema_name=NAME)(My)
+Scalar("MyA", schema_name=NAME)(My)
+from tartiflette import Directive as _D  # noqa: E402
+
+
+class _NoHook:
+    pass
+
+
+class _PassThrough:
+    async def on_post_input_coercion(self, directive_args, next_directive, parent_node, value, ctx):
+        return await next_directive(parent_node, value, ctx)
+
+
+_D("audited", schema_name=NAME)(_NoHook())
+_D("seen", schema_name=NAME)(_PassThrough())
 for _n, _t, _ in TYPES:
     @Resolver("Query.p_%s" % _n, schema_name=NAME)
     async def _r(parent, args, ctx, info):
@@ -49,7 +69,7 @@ for _n, _t, _ in TYPES:
         return "ok"
 ENG = build(SDL, NAME, query_cache_decorator=DictCache())
 MODEL = model_from_sdl(SDL)
-MODEL["custom"] = {"My": {"in": lambda v: v, "lit": lambda n: int(n["value"]), "out": lambda v: v}}
+MODEL["custom"] = {"My": {"in": lambda v: v, "lit": lambda n: int(n["value"]), "out": lambda v: v}, "MyA": {"in": lambda v: v, "lit": lambda n: int(n["value"]), "out": lambda v: v}}
 
 
 def qtext(ti, di):
@@ -145,9 +165,11 @@ def _quick(s):
     if "hx" in s and TYPES[s["ti"]][0] == "lo":
         return s["shape"] == 5 and (s["hx"], s["hy"], s["hc"], s["hin"], s["hz"]) in ((1, 0, 0, 0, 0), (1, 1, 0, 0, 0))     # a single object where a list of objects is expected
     if "hx" in s:
-        return TYPES[s["ti"]][0] == "o" and s["shape"] == 5 and (s["hx"], s["hy"], s["hc"], s["hin"], s["hz"]) in ((1, 0, 0, 0, 0), (0, 1, 0, 0, 0), (1, 1, 0, 0, 0), (1, 0, 1, 0, 0), (1, 0, 0, 1, 0), (1, 0, 0, 0, 1), (0, 0, 0, 1, 0))
+        return TYPES[s["ti"]][0] in ("o", "oa") and s["shape"] == 5 and (s["hx"], s["hy"], s["hc"], s["hin"], s["hz"]) in ((1, 0, 0, 0, 0), (0, 1, 0, 0, 0), (1, 1, 0, 0, 0), (1, 0, 1, 0, 0), (1, 0, 0, 1, 0), (1, 0, 0, 0, 1), (0, 0, 0, 1, 0))
     if s["di"] == 1 and s["shape"] == 1 and TYPES[s["ti"]][0] in ("i", "ni", "li", "b"):
         return True          # a provided value (incl. explicit null) where the variable declares a default
+    if TYPES[s["ti"]][0] in ("ca", "lca", "msa") and s["shape"] in (1, 3):
+        return True          # decorated input types: a wrong-kind / unknown / null leaf
     if TYPES[s["ti"]][0] in ("lc", "lnli", "li") and s["di"] == 0 and s["shape"] in (0, 1, 3):
         return True          # declared types whose wrapper sequence is not a palindrome ([T!], [[T!]]!): null / absent at each level
     return TYPES[s["ti"]][0] in ("i", "nli", "lli", "o", "c", "f") and (s["di"] == 0 or s["shape"] == 0)
